@@ -313,6 +313,8 @@ def run_tlc(module, cfgfile, workers=16, simulate=None, depth=None, timeout=1200
         if mm:
             res.generated = int(mm.group(1))
             res.states = res.generated      # simulation: distinct states are not tracked by TLC
+    mi = re.search(r"Finished computing initial states: (\d+) distinct state", out)
+    res.init_states = int(mi.group(1)) if mi else 1
     res.violated = _RE_INV.findall(out) + _RE_PROP.findall(out)
     if "Model checking completed. No error has been found." in out or \
             (simulate is not None and rc == 0 and "Error:" not in out):
@@ -563,7 +565,7 @@ class Check(object):
         if res.error and not res.violated:
             raise MachineryError("TLC run %s failed: %s\n%s" % (name, res.error, res.stdout[-2500:]))
         self.states += res.states
-        self.transitions += max(res.generated - 1, 0)
+        self.transitions += max(res.generated - getattr(res, 'init_states', 1), 0)
         self.tlc_runs.append({"name": name, "states": res.states, "generated": res.generated,
                               "violated": res.violated, "wall_s": round(res.wall, 2),
                               "cmd": res.cmd.split("tlc2.TLC", 1)[-1].strip()})
